@@ -647,6 +647,32 @@ func genCase(r *hx.Rand, prop string) []*big.Int {
 	rid := 0
 	cidOf := map[int]int{}
 	open := []int{}
+	if prop == "C04" && r.Chance(1, 4) {
+		// a pod whose address sits on the interface the manager would NOT try first: the first interface fills up (two pods),
+		// the third pod gets the second interface, the second pod leaves (an idle address on the first, bigger interface);
+		// then the third pod's ADD comes again (same sandbox, or a new one)
+		ns, npods = 2, 3+r.Intn(2)
+		c.Types, c.Preload = []int{0, 0}, []int{0, 0}
+		c.Cap, c.Batch, c.Tot = 2, 1, 4
+		settle := func() {
+			recs = append(recs, []int{pool.RAdvance, 300}, []int{pool.RComplete, 1, pool.OOk}, []int{pool.RComplete, 2, pool.OOk})
+		}
+		for pod := 1; pod <= 3; pod++ {
+			rid++
+			cidOf[pod] = pod * 10
+			recs = append(recs, []int{SAdd, rid, pod, cidOf[pod]})
+			settle()
+		}
+		rid++
+		recs = append(recs, []int{SDel, rid, 2, cidOf[2]})
+		rid++
+		if r.Chance(1, 2) {
+			cidOf[3]++
+		}
+		recs = append(recs, []int{SAdd, rid, 3, cidOf[3]})
+		settle()
+		n = 4 + r.Intn(12)
+	}
 	for i := 0; i < n; i++ {
 		x := r.Intn(100)
 		pod := 1 + r.Intn(npods)
